@@ -24,16 +24,31 @@ def run(tier):
         # R: every model behaviour (= every bounded text and every prefix of it) through the real class
         seqs, nedges, nstates, unreach = cover(edges)
         del edges
-        script = os.path.join(c.wd, "script_%d.ndjson" % mi)
-        write_script(seqs, script)
         c.notes.append("%s: %d distinct edges over %d states covered by %d replay sequences; one Format event per "
                        "distinct (configuration, text) pair" % (cfg, nedges, nstates, len(seqs)))
+        # the replay is cut into parts so that no recorded trace comes near the 400 MB output cap
+        parts, acc = [[]], 0
+        for sq in seqs:
+            if acc + len(sq) + 1 > 700000 and parts[-1]:
+                parts.append([])
+                acc = 0
+            parts[-1].append(sq)
+            acc += len(sq) + 1
         del seqs
-        tr = os.path.join(c.wd, "replay_%d.ndjson" % mi)
-        c.drive(exe, ["--script", script], tr, "R%d" % mi, timeout=900)
-        c.validate(spec, "TraceTextBlock", "TraceTextBlock.cfg", tr, "R%d" % mi, timeout=1500)
+        for pi, part in enumerate(parts):
+            tag = "R%d.%d" % (mi, pi)
+            script = os.path.join(c.wd, "script_%d_%d.ndjson" % (mi, pi))
+            write_script(part, script)
+            tr = os.path.join(c.wd, "replay_%d_%d.ndjson" % (mi, pi))
+            c.drive(exe, ["--script", script], tr, tag, timeout=900)
+            c.validate(spec, "TraceTextBlock", "TraceTextBlock.cfg", tr, tag, timeout=1500)
+            if tier != "quick" and not c.violations:      # keep the disk footprint of the thorough tier small
+                os.remove(tr)
+                for fn in os.listdir(c.wd):
+                    if fn.startswith(tag + "_shard"):
+                        os.remove(os.path.join(c.wd, fn))
     # T: random texts far outside the model bounds
-    cases, texts = (150, 4) if tier == "quick" else (3000, 5)
+    cases, texts = (500, 4) if tier == "quick" else (2500, 5)
     tr2 = os.path.join(c.wd, "random.ndjson")
     c.drive(exe, ["--random", "--seed", SEED, "--cases", cases, "--texts", texts], tr2, "T", timeout=900)
     c.validate(spec, "TraceTextBlock", "TraceTextBlock.cfg", tr2, "T", timeout=1500)
